@@ -509,7 +509,9 @@ SegEv(r) ==
                   \* C18 "never transmits a new data segment smaller than the segment size it could have used while any
                   \*      earlier data is still unacknowledged, unless the peer's window is what limits it"
                   \* (room: the strictest reading of what the window still allows, so any looser accounting passes)
-                  <<"C18.NagleHold", r.nagle /\ SentUnacked(e) /\ ~r.probe /\ e.peerFin < 0,
+                  \* (earlier data: transmitted and unacknowledged, or cut earlier in the same pass - segments are sent in
+                  \*  order and never re-cut, so the segments queued in front of this one go out before it)
+                  <<"C18.NagleHold", r.nagle /\ (SentUnacked(e) \/ r.segmented > 0) /\ ~r.probe /\ e.peerFin < 0,
                                      r.len >= Min(OwnMss(e), Max(0, r.pwnd - r.segmented))>> })
             /\ eps' = [eps EXCEPT ![k].probeQ = IF r.probe THEN TRUE ELSE @]
 
